@@ -211,6 +211,45 @@ def _reachable_ids(starts):
 
 
 # ---------------------------------------------------------------------------
+def _address_names(fn, addr):
+    """Locals that can only hold the sequence's address argument: every
+    assignment to them is a name of the set or its conversion
+    GearShort(<name of the set>)."""
+    S = {addr}
+    assigns = {}
+    for n in ast.walk(fn):
+        if isinstance(n, ast.Assign):
+            for t in n.targets:
+                if isinstance(t, ast.Name):
+                    assigns.setdefault(t.id, []).append(n.value)
+                else:
+                    for x in ast.walk(t):
+                        if isinstance(x, ast.Name):
+                            assigns.setdefault(x.id, []).append(None)
+        elif isinstance(n, (ast.AugAssign, ast.For, ast.NamedExpr)):
+            t = n.target
+            for x in ast.walk(t):
+                if isinstance(x, ast.Name):
+                    assigns.setdefault(x.id, []).append(None)
+
+    def is_addr(v, S2):
+        if isinstance(v, ast.Name):
+            return v.id in S2
+        return isinstance(v, ast.Call) and unparse(v.func).split(".")[-1] == \
+            "GearShort" and len(v.args) == 1 and not v.keywords and \
+            isinstance(v.args[0], ast.Name) and v.args[0].id in S2
+    for _ in range(4):
+        for name, vals in assigns.items():
+            # a conversion of the local itself is fine once some binding
+            # brings in a name already in the set
+            if name not in S and vals and all(
+                    v is not None and is_addr(v, S | {name})
+                    for v in vals) and any(
+                        isinstance(v, ast.Name) and v.id in S for v in vals):
+                S.add(name)
+    return S
+
+
 def check(run, repo, world):
     run.explanation = (
         "Decides on the generator CFGs of SetDT8ColourValueTc / SetDT8TcLimit "
@@ -264,7 +303,7 @@ def check(run, repo, world):
                 if _q(y) and _q(y).startswith(COL):
                     run.ob("R-DT8-ORDER", F + "#address:" + y.name,
                            y.arg(0) is not None and unparse(
-                               y.arg(0)) == addr,
+                               y.arg(0)) in _address_names(fn, addr),
                            "%s must be sent to `%s`" % (y.name, addr),
                            where(mod, y.node))
         # lanes
@@ -411,7 +450,8 @@ def check(run, repo, world):
         if _q(y) in (GEN + "QueryActualLevel", COL + "QueryColourValue",
                      GEN + "QueryContentDTR0"):
             run.ob("R-DT8-ORDER", F + "#address:" + y.name,
-                   y.arg(0) is not None and unparse(y.arg(0)) == addr,
+                   y.arg(0) is not None and unparse(
+                       y.arg(0)) in _address_names(fn, addr),
                    "%s must be sent to `%s`" % (y.name, addr),
                    where(mod, y.node))
         if _q(y) == GEN + "DTR0":
